@@ -413,3 +413,14 @@ Definition i_rid (st : istate) (k : N) : option N :=
   | Some (rid, _) => Some rid
   | None => None
   end.
+
+(* readings of an istate for statements: the session of a source key, the ingress ids registered under a router,
+   what unit `rib` reports for one (family, prefix, ingress id), what the property's reading holds for a route *)
+Definition i_session (st : istate) (key : N) : option (N * sm) := w_routers (es_w (is_e st)) !! key.
+Definition i_children (st : istate) (rid : N) : list N := reg_ids_for_parent (w_reg (es_w (is_e st))) rid.
+Definition i_rib_lookup (st : istate) (k : rkey) : option (bool * N) := rib_lookup (ru_rib (es_rib (is_e st))) k.
+Definition i_spec_lookup (st : istate) (f p : N) (x : wid) : option (bool * N) := s_rib (es_s (is_e st)) !! (f, p, x).
+Definition i_spec_session (st : istate) (key : N) : bool :=
+  match s_sess (es_s (is_e st)) !! key with Some _ => true | None => false end.
+Definition withdrawn_of (o : option (bool * N)) : option (bool * N) :=
+  match o with Some (_, a) => Some (false, a) | None => None end.
